@@ -1163,6 +1163,49 @@ def check_wb(case, ctx):
         _common_ratio(ctx, per, 'wb_postscale')
 
 
+# ---- long exposure sequences: frames x pixels well above 2**22 samples, not a multiple of anything convenient --------------------------------
+def enum_sequences(tier):
+    geos = [((64, 64), 1031), ((256, 256), 70), ((512, 512), 17), ((100, 37), 1201), ((1, 5), 20)]
+    if tier == 'thorough':
+        geos += [((1024, 1024), 5), ((256, 256), 131), ((33, 65), 2111)]
+    for k, (shape, frames) in enumerate(geos):
+        yield {'shape': list(shape), 'frames': frames, 'bits': [12, 14, 16, 10, 8, 12, 16, 14][k % 8], 'gain': [1.0, 0.37, 4.0, 1.3][k % 4], 'prec': 64}
+        yield {'shape': list(shape), 'frames': frames, 'bits': 12, 'gain': 2.0, 'prec': 32}
+
+
+def _check_sequences(case, ctx):
+    """noise sources off, many frames: every frame of the returned stack - the first, the last, the ones in between - equals the clipped, gain-scaled signal and has
+    the documented shape (frames, rows, cols)."""
+    from prysm.detector import Detector
+    shape, frames, bits, gain = tuple(case['shape']), case['frames'], case['bits'], case['gain']
+    top = 2.0 ** bits
+    ny, nx = shape
+    yy, xx = np.mgrid[:ny, :nx]
+    dn_in = ((yy * 7 + xx * 3) % 17) / 16.0 * 1.25 * top          # below, at and above the ADC ceiling in every row
+    el = dn_in * gain
+    ctx.nt(True)
+    ctx.label('frames:%d' % frames, 'samples>2**22' if frames * ny * nx > 2 ** 22 else 'samples<=2**22')
+    det = Detector(dark_current=0.0, read_noise=0.0, bias=0.0, fwc=1e15 * top * gain, conversion_gain=gain, bits=bits, exposure_time=1.0)
+    with rng_proxy(_NoNoise()):
+        out = ctx.call(det.expose, el, frames)
+    U.check_shape(out, (frames,) + shape, 'expose:sequence')
+    ctx.require(np.issubdtype(np.asarray(out).dtype, np.integer), 'expose:dtype', 'dtype %s is not an integer type' % np.asarray(out).dtype)
+    v = el / gain
+    lo = np.floor(np.clip(v * (1 - 1e-12), 0, top - 1)).astype(np.int64)
+    hi = np.floor(np.clip(v * (1 + 1e-12), 0, top - 1)).astype(np.int64)
+    o = np.asarray(out)
+    for f in range(frames):
+        of = o[f].astype(np.int64)
+        bad = (of < lo) | (of > hi)
+        if bad.any():
+            i = tuple(int(k) for k in np.argwhere(bad)[0])
+            ctx.fail('expose:sequence:frame-value', 'frame %d of %d (%s pixels, bits=%d): pixel %s with ADC input %.17g DN reads %d, expected %d; %d of %d pixels of that frame wrong' % (
+                f, frames, shape, bits, i, v[i], of[i], lo[i], int(bad.sum()), bad.size))
+
+
+check_sequences = _check_sequences
+
+
 # ---- the configured precision (prysm.conf.config.precision) is part of the environment of every call: nothing in the property depends on it ----
 def _with_prec(strat):
     def f(tier):
@@ -1191,6 +1234,7 @@ def _at_precision(inner):
 
 CLAUSES = [
     EnumClause('adc_ceiling_all_bits', _enum_with_prec(enum_ceiling), _at_precision(check_ceiling), shards={'quick': 2, 'thorough': 2}),
+    EnumClause('long_sequences', enum_sequences, _at_precision(check_sequences), shards={'quick': 5, 'thorough': 8}),
     HypClause('expose_noise_free', _with_prec(strat_detector), _at_precision(check_noise_free), examples={'quick': 600, 'thorough': 3000}, shards={'quick': 3, 'thorough': 6}),
     HypClause('expose_noisy_range', _with_prec(strat_detector), _at_precision(check_noisy_range), examples={'quick': 300, 'thorough': 2000}, shards={'quick': 2, 'thorough': 4}),
     HypClause('bindown_tile', _with_prec(strat_bin), _at_precision(check_bin), examples={'quick': 600, 'thorough': 3000}, shards={'quick': 2, 'thorough': 4}),
